@@ -12,18 +12,6 @@ open Rustbus Rustbus.Proto Rustbus.Wire Driver.WireProto
 def costSuffix (t : Ty) (n : Nat) (w : Nat) (dp : Nat) : String :=
   if w ≤ workBound t maxDepth n ∧ dp ≤ maxDepth then "" else s!" COST work={w} depth={dp} bound={workBound t maxDepth n}"
 
-/-- a whole body with the instrumented decoder: (accepted, total work, max depth, cost ok) -/
-def bodyW (bo : ByteOrder) (buf : List UInt8) (nfds : Option Nat) : List Ty → Nat → Bool × Bool
-  | [], off => (off == buf.length, true)
-  | t :: ts, off =>
-    let r := decW bo buf nfds maxDepth t off buf.length
-    let okc := decide (r.work ≤ workBound t maxDepth (buf.length - off)) && decide (r.depth ≤ maxDepth)
-    match r.res with
-    | none => (false, okc)
-    | some (_, o') =>
-      let (a, c) := bodyW bo buf nfds ts o'
-      (a, okc && c)
-
 def parseElem (s : String) : Option Base :=
   match s.toList with
   | [c] => Base.ofChar c
@@ -45,8 +33,10 @@ def handle : List String → String
     match parseBo bo, parseTys tys, parseHex hx with
     | some bo, some ts, some buf =>
       let nf := if nfds == "~" then none else nfds.toNat?
-      let (a, c) := bodyW bo buf nf ts 0
-      (if a then "ok" else "reject") ++ (if c then "" else " COST")
+      let r := decBodyW bo buf nf ts 0
+      let c := if r.work ≤ Ty.sizeList ts + 256 * 65 * buf.length ∧ r.depth ≤ maxDepth then ""
+               else s!" COST work={r.work} depth={r.depth}"
+      (if r.res.isSome then "ok" else "reject") ++ c
     | _, _, _ => "bad-op"
   -- c04.slice <bo> <base> <elem> <off> <hex> → borrowed <consumed> | owned <consumed> | reject
   --   Cow<[E]>::unmarshal on a context at offset <off>, first byte of the buffer at an address ≡ base (mod 8);
